@@ -146,7 +146,7 @@ def known_findings(pid):
 
 
 def write_replay(pid, cex):
-    d = os.path.join(VERIF, 'replays', pid)
+    d = os.path.join(os.environ.get('VERIF_REPLAY_DIR') or os.path.join(VERIF, 'replays'), pid)
     os.makedirs(d, exist_ok=True)
     blob = json.dumps(cex, sort_keys=True, indent=1)
     p = os.path.join(d, hashlib.sha256(blob.encode()).hexdigest()[:12] + '.json')
@@ -187,10 +187,11 @@ def finish(pid, tier, level, obligations, coverage, assumptions, t_start, seed):
               wall_s=round(time.time() - t_start, 1), violations=len(viol),
               known_findings_hit=[o.key for o in knownhit],
               repo_tree_hash=tree_hash(REPO))
-    os.makedirs(os.path.join(VERIF, 'evidence'), exist_ok=True)
-    tmp = os.path.join(VERIF, 'evidence', pid + '.json.tmp')
+    evdir = os.environ.get('VERIF_EVIDENCE_DIR') or os.path.join(VERIF, 'evidence')
+    os.makedirs(evdir, exist_ok=True)
+    tmp = os.path.join(evdir, pid + '.json.tmp')
     json.dump(ev, open(tmp, 'w'), indent=1, default=str)
-    os.replace(tmp, os.path.join(VERIF, 'evidence', pid + '.json'))
+    os.replace(tmp, os.path.join(evdir, pid + '.json'))
     seenk = set()
     for o in knownhit:
         if o.key not in seenk:
